@@ -54,7 +54,7 @@ def _pred_shape(run, lam, r, where_short, name, stamp_field, key_expected):
         fld = stamp[0][len('self._interpreter.'):].split('[')[0]
         key = stamp[0].split('[', 1)[1][:-1]
         run.check(fld == stamp_field, r, where_short, "'%s' reads %s" % (name, stamp_field), "'%s' reads %s" % (name, fld), lam)
-        run.check(key == key_expected, r, where_short, "'%s' keyed by the owning state (%s)" % (name, key_expected), 'keyed by %s' % key, lam)
+        run.check(key == key_expected, r, where_short, "'%s' keyed by the owning state" % name, 'keyed by %s, owner is %s' % (key, key_expected), lam)
 
 
 def check(run):
@@ -72,8 +72,9 @@ def check(run):
                 run.check(good, r, fi.short, 'write:Interpreter._time from the clock', 'the step time is modified outside its sampling point', node)
                 if fi.short == 'Interpreter.execute_once':
                     E = fi.node
-                    first = [s for s in E.body if not (isinstance(s, ast.Expr) and isinstance(s.value, ast.Constant))][0]
-                    run.check(node is first, r, fi.short, 'the sample is the first effect of execute_once', 'something runs before the time is sampled', node)
+                    before = E.body[:E.body.index(node)] if node in E.body else E.body
+                    inert = node in E.body and all(not any(isinstance(x, (ast.Call, ast.Attribute, ast.Raise, ast.For, ast.While)) for x in ast.walk(s_)) for s_ in before)
+                    run.check(inert, r, fi.short, 'the sample is the first effect of execute_once', 'something runs before the time is sampled', node)
     run.floor(nw, 2, r, 'writers of _time')
     nr = 0
     for fi in prog.functions():
@@ -173,12 +174,12 @@ def check(run):
             if mname == 'evaluate_guard':
                 key_expected = op + '.source'
             else:
-                # state_name = obj.source if isinstance(obj, Transition) else obj.name
-                defs = q.assigned_value(M, 'state_name')
-                good = len(defs) == 1 and q.unparse(defs[0][1]) == '%s.source if isinstance(%s, Transition) else %s.name' % (op, op, op)
+                # <owner> = obj.source if isinstance(obj, Transition) else obj.name
+                owner = [st.targets[0].id for st, v in [(st, v) for n_ in q.walk(M, False) if isinstance(n_, ast.Assign) for st, v in [(n_, n_.value)]]
+                         if isinstance(st.targets[0], ast.Name) and q.unparse(v) == '%s.source if isinstance(%s, Transition) else %s.name' % (op, op, op)]
                 if 'after' in keys:
-                    run.check(good, r, m.short, 'owning state = source of a transition, else the state itself', 'owner computed differently', M)
-                key_expected = 'state_name'
+                    run.check(len(owner) == 1 and len(q.assigned_value(M, owner[0])) == 1, r, m.short, 'owning state = source of a transition, else the state itself', 'owner computed differently', M)
+                key_expected = owner[0] if owner else '<owner>'
             for nm, fld in (('after', '_entry_time'), ('idle', '_idle_time')):
                 if nm in table:
                     n += 1
